@@ -325,8 +325,8 @@ func (a *EpochBitmapAllocator) indexToIP(idx uint64) net.IP {
 	ip := make(net.IP, 4)
 	copy(ip, a.baseIP)
 
-	// Add index as offset
-	offset := uint32(idx)
+	// Add index as offset, scaled by the size of one allocated prefix
+	offset := uint32(idx) << uint(32-a.prefixLength)
 	ip[0] += byte(offset >> 24)
 	ip[1] += byte(offset >> 16)
 	ip[2] += byte(offset >> 8)
@@ -347,6 +347,9 @@ func (a *EpochBitmapAllocator) ipToIndex(ip net.IP) (uint64, error) {
 	for i := 0; i < 4; i++ {
 		offset = (offset << 8) | uint64(ip4[i]-a.baseIP[i])
 	}
+
+	// Scale back from addresses to allocated-prefix index
+	offset >>= uint(32 - a.prefixLength)
 
 	if offset >= a.totalIPs {
 		return 0, fmt.Errorf("IP not in pool")
